@@ -1,0 +1,18 @@
+//go:build verif
+
+package view
+
+// VerifSuicDistributeLines exposes Composite.distributeLines to the verification
+// harness (cmd/verifharness, build tag verif): the grant of every element, in
+// element order, for remLines lines above the sum of the minimums.
+func (v *Composite) VerifSuicDistributeLines(remLines int) []int {
+	m := v.distributeLines(remLines)
+	out := make([]int, len(v.elements))
+	for i := range v.elements {
+		out[i] = m[i]
+	}
+	return out
+}
+
+// VerifSuicElements returns the elements of the composite.
+func (v *Composite) VerifSuicElements() []View { return v.elements }
